@@ -1,6 +1,8 @@
 SPECIFICATION Spec
 INVARIANT CommitHonoured
 INVARIANT LoadIffRecord
+INVARIANT CopyHasRecord
+PROPERTY CommitStep
 INVARIANT LegacyKind
 VIEW DesignView
 CHECK_DEADLOCK FALSE
